@@ -8,6 +8,7 @@ mod codec;
 mod cpr;
 mod deb;
 mod docspec;
+mod edit;
 mod lossy;
 mod pgp;
 mod rel;
@@ -36,6 +37,9 @@ fn dispatch(op: &str, args: &[&str]) -> Option<Resp> {
     if let Some(r) = deb::handle(op, args) {
         return Some(r);
     }
+    if let Some(r) = edit::handle(op, args) {
+        return Some(r);
+    }
     if let Some(r) = lossy::handle(op, args) {
         return Some(r);
     }
@@ -62,6 +66,8 @@ fn generate(prop: &str, tier: &str, seed: u64, out: &mut util::Out) {
         "C01" => deb::generate_c01(tier, seed, out),
         "C02" => total::generate_c02(tier, seed, out),
         "C03" => deb::generate_c03(tier, seed, out),
+        "C04" => edit::generate_edit(tier, seed, out, "C04"),
+        "C05" => edit::generate_edit(tier, seed, out, "C05"),
         "C06" => lossy::generate_c06(tier, seed, out),
         "C08" => lossy::generate_c08(tier, seed, out),
         "C09" => rel::generate_c09(tier, seed, out),
